@@ -11,7 +11,8 @@ P = {
          "MIR call-site rules, constant/table extraction, forward pairing of field assignments, edge dominance", "§4 C05"),
  "C09": None,
  "C10": ("other", "Structurally sufficient: the default-header builder pushes each of the six required headers exactly once on every path with the required value (Vary provably names Origin), every reachable Response is built from the builder's result, no reachable code removes or re-creates those headers, and the serialiser iterates the whole list.",
-         "must-pass-through / exactly-once CFG checks, who-may-construct and who-may-mutate rules, dataflow of the Vary value", "§4 C10"), "C11": None, "C12": None, "C14": None, "C15": None, "C17": None, "C18": None, "C19": None,
+         "must-pass-through / exactly-once CFG checks, who-may-construct and who-may-mutate rules, dataflow of the Vary value", "§4 C10"), "C11": ("other", "Every Access-Control-* header is built only in blocks dominated by the Origin-present test and, in restricted mode, by the true edge of an element-wise equality membership test (substring, prefix and case-insensitive operations are rejected); each grant takes its value from its own setting; the allow-all function is unreachable once the switch parsed to false (infeasible Err branches pruned).",
+         "edge dominance, classification of the membership operation, dataflow pairing header<->setting, pruned CFG reachability", "§4 C11"), "C12": None, "C14": None, "C15": None, "C17": None, "C18": None, "C19": None,
  "C04": ("other", "Sufficient modulo the reviewed tables: every potential panic site (unwrap/expect, documented-panicking std call, overflow/bounds/division assert, explicit panic) reachable from the connection roots is guarded by a dominating check, exempt by table or allowlisted with a reason; no input-driven recursion; exactly one response write on every path; error edges answer with the 400 constructor. Genuine residual defects are listed as known findings.",
          "MIR panic-site inventory + dominance-based guard recognition over the call graph; SCC recursion check; CFG path counting", "§4 C04"),
  "C06": ("other", "Structural: panics of request handling are contained by catch_unwind (cut-edge reachability from the worker loop), the accept loop returns only when the listener is exhausted, the queue lock is not held while a task runs, the worker loop has no exit; stack-exhausting recursion is reported.",
